@@ -14,6 +14,10 @@
 //!       engine a real `Engine` (trading disabled, `DefaultStrategy`): `Engine::process` of
 //!              `EngineEvent::Account` / `EngineEvent::Market`; the `PositionExited` is taken
 //!              from the audit (`EngineOutput::PositionExit`)
+//!       algo   a real `Engine` with trading ENABLED, healthy execution links and a strategy that
+//!              sends one open request in EVERY step (`vh::engine_kit::Kit`): the closed-position
+//!              record is what the engine EMITS - the `EngineOutput::PositionExit` entries of
+//!              `ProcessAudit.outputs`, next to the `AlgoOrders` output of the same step
 //!     --scale: scale-equivariant concretisation (DESIGN 5.5): prices and fees x 10^+-6 (p6/pm6)
 //!     or quantities and fees x 10^+-6 (q6/qm6); the expectations are rescaled the same way.
 //!
@@ -45,7 +49,7 @@ use barter_data::{
     books::Level,
     event::{DataKind, MarketEvent},
     streams::consumer::MarketStreamEvent,
-    subscription::{book::OrderBookL1, trade::PublicTrade},
+    subscription::{book::OrderBookL1, candle::Candle, liquidation::Liquidation, trade::PublicTrade},
 };
 use barter_execution::{
     AccountEvent, AccountEventKind,
@@ -58,15 +62,12 @@ use barter_instrument::{
     exchange::{ExchangeId, ExchangeIndex},
     instrument::InstrumentIndex,
 };
-use barter_integration::{
-    channel::{UnboundedTx, mpsc_unbounded},
-    collection::none_one_or_many::NoneOneOrMany,
-};
+use barter_integration::channel::{UnboundedTx, mpsc_unbounded};
 use rand::Rng;
 use rust_decimal::Decimal;
 use serde_json::{Map, Value, json};
 use std::collections::BTreeMap;
-use vh::{cmp::json_match, util::*, world};
+use vh::{cmp::json_match, engine_kit, util::*, world};
 
 type Pos = Position<QuoteAsset, InstrumentIndex>;
 type Exit = PositionExited<QuoteAsset, InstrumentIndex>;
@@ -197,6 +198,39 @@ enum Sut {
     State(Box<world::State>),
     Instr(Box<world::State>),
     Engine(Box<Eng>),
+    /// trading enabled + a strategy that sends an order in every step; .1 counts the steps
+    Algo(Box<engine_kit::Kit>, u64),
+}
+
+/// The closed-position records an engine step EMITTED: the `PositionExit` entries of the audit's
+/// outputs. `algo`: an `AlgoOrders` output is expected next to them (and nothing else).
+fn emitted_exits<A: std::fmt::Debug, B: std::fmt::Debug>(
+    audit: EngineAudit<EngineEvent<DataKind>, EngineOutput<A, B>>,
+    algo: bool,
+) -> Result<Vec<Exit>, String> {
+    let EngineAudit::Process(p) = audit else { return Err("engine audit FeedEnded".into()) };
+    if !p.errors.is_empty() {
+        return Err(format!("engine audit carries errors: {:?}", p.errors));
+    }
+    let (mut exits, mut algo_outputs) = (vec![], 0);
+    for o in p.outputs {
+        match o {
+            EngineOutput::PositionExit(x) => exits.push(x),
+            EngineOutput::AlgoOrders(_) if algo => algo_outputs += 1,
+            other => return Err(format!("unexpected engine output: {other:?}")),
+        }
+    }
+    if algo && algo_outputs != 1 {
+        return Err(format!("expected one AlgoOrders output in the audit of the step, found {algo_outputs}"));
+    }
+    Ok(exits)
+}
+
+fn at_most_one(mut exits: Vec<Exit>) -> Result<Option<Exit>, String> {
+    if exits.len() > 1 {
+        return Err(format!("{} position-closed records emitted for one fill", exits.len()));
+    }
+    Ok(exits.pop())
 }
 
 fn exchange_index_of(i: usize) -> ExchangeIndex {
@@ -213,6 +247,7 @@ impl Sut {
             "state" => Sut::State(Box::new(world::engine_state(TradingState::Disabled))),
             "instr" => Sut::Instr(Box::new(world::engine_state(TradingState::Disabled))),
             "engine" => Sut::Engine(Box::new(new_engine())),
+            "algo" => Sut::Algo(Box::new(engine_kit::Kit::new(TradingState::Enabled)), 0),
             m => usage(&format!("unknown mode {m}")),
         }
     }
@@ -222,7 +257,31 @@ impl Sut {
             Sut::Pm(_) => None,
             Sut::State(s) | Sut::Instr(s) => Some(s),
             Sut::Engine(e) => Some(&e.state),
+            Sut::Algo(k, _) => Some(&k.engine.state),
         }
+    }
+
+    /// algo mode: the strategy's output for the coming step - one fresh open request on instrument i
+    fn arm_strategy(&mut self, i: usize) {
+        if let Sut::Algo(k, n) = self {
+            *n += 1;
+            let req = engine_kit::open_req(&json!({"k": "open", "ex": i / 2, "inst": i, "cid": format!("a{n}"),
+                                                    "side": if *n % 2 == 0 { "buy" } else { "sell" }, "qty": 1, "hasId": false}));
+            let mut sc = k.script.lock();
+            sc.cancels.clear();
+            sc.opens = vec![req];
+        }
+    }
+
+    /// algo mode: the step's order must have reached the (healthy) execution link
+    fn order_sent(&mut self) -> Result<(), String> {
+        if let Sut::Algo(k, _) = self {
+            let sent: usize = k.links.take().iter().map(|v| v.len()).sum();
+            if sent != 1 {
+                return Err(format!("the strategy's order of this step was not sent ({sent} requests on the links)"));
+            }
+        }
+        Ok(())
     }
 
     fn supports_market(&self) -> bool {
@@ -241,20 +300,18 @@ impl Sut {
                     exchange: exchange_index_of(i),
                     kind: AccountEventKind::Trade(tr),
                 }));
-                let audit = catch(|| e.process(ev))?;
-                match audit {
-                    EngineAudit::Process(p) => {
-                        if !p.errors.is_empty() {
-                            return Err(format!("engine audit carries errors: {:?}", p.errors));
-                        }
-                        match p.outputs {
-                            NoneOneOrMany::None => Ok(None),
-                            NoneOneOrMany::One(EngineOutput::PositionExit(x)) => Ok(Some(x)),
-                            other => Err(format!("unexpected engine outputs for a trade: {other:?}")),
-                        }
-                    }
-                    EngineAudit::FeedEnded => Err("engine audit FeedEnded for a trade".into()),
-                }
+                at_most_one(emitted_exits(catch(|| e.process(ev))?, false)?)
+            }
+            Sut::Algo(..) => {
+                self.arm_strategy(i);
+                let Sut::Algo(k, _) = self else { unreachable!() };
+                let ev = EngineEvent::Account(AccountStreamEvent::Item(AccountEvent {
+                    exchange: exchange_index_of(i),
+                    kind: AccountEventKind::Trade(tr),
+                }));
+                let audit = catch(|| k.engine.process(ev))?;
+                self.order_sent()?;
+                at_most_one(emitted_exits(audit, true)?)
             }
         }
     }
@@ -269,9 +326,19 @@ impl Sut {
             }),
             Sut::Engine(e) => {
                 let audit = catch(|| e.process(EngineEvent::Market(MarketStreamEvent::Item(ev))))?;
-                match audit {
-                    EngineAudit::Process(p) if p.errors.is_empty() && p.outputs.is_empty() => Ok(()),
-                    other => Err(format!("unexpected engine audit for a market item: {other:?}")),
+                match emitted_exits(audit, false)?.len() {
+                    0 => Ok(()),
+                    n => Err(format!("{n} position-closed record(s) emitted for a market event")),
+                }
+            }
+            Sut::Algo(..) => {
+                self.arm_strategy(i);
+                let Sut::Algo(k, _) = self else { unreachable!() };
+                let audit = catch(|| k.engine.process(EngineEvent::Market(MarketStreamEvent::Item(ev))))?;
+                self.order_sent()?;
+                match emitted_exits(audit, true)?.len() {
+                    0 => Ok(()),
+                    n => Err(format!("{n} position-closed record(s) emitted for a market event")),
                 }
             }
         }
@@ -308,7 +375,7 @@ fn mk_trade(i: usize, id: i64, t: i64, side: Side, p: Decimal, q: Decimal, fee: 
     }
 }
 
-/// A priced market event for instrument i whose price is `p`:
+/// A market event for instrument i carrying price `p`:
 ///   trade: a public trade at p (f64, as venues deliver it)
 ///   l1   : a top-of-book whose volume-weighted mid price is exactly p, in one of three shapes
 fn mk_market(i: usize, kind: &str, t: i64, p: Decimal, variant: u64) -> Mk {
@@ -330,6 +397,27 @@ fn mk_market(i: usize, kind: &str, t: i64, p: Decimal, variant: u64) -> Mk {
             };
             DataKind::OrderBookL1(OrderBookL1 { last_update_time: time(t), best_bid: Some(bid), best_ask: Some(ask) })
         }
+        // kinds without a price for DefaultInstrumentMarketData: a top-of-book with one side or no side
+        // (no mid price; once adopted the price falls back to the last public trade or to none) ...
+        "l1bid" | "l1ask" | "l1none" => {
+            let lvl = Some(Level::new(p, Decimal::from(1 + (variant % 3) as i64)));
+            DataKind::OrderBookL1(OrderBookL1 {
+                last_update_time: time(t),
+                best_bid: if kind == "l1bid" { lvl } else { None },
+                best_ask: if kind == "l1ask" { lvl } else { None },
+            })
+        }
+        // ... and kinds the default data state ignores
+        "candle" => {
+            let c = p.to_string().parse::<f64>().unwrap();
+            DataKind::Candle(Candle { close_time: time(t), open: c, high: c + 1.0, low: c - 1.0, close: c, volume: 7.0, trade_count: 3 })
+        }
+        "liq" => DataKind::Liquidation(Liquidation {
+            side: if variant % 2 == 0 { Side::Buy } else { Side::Sell },
+            price: p.to_string().parse::<f64>().unwrap(),
+            quantity: 2.0,
+            time: time(t),
+        }),
         k => usage(&format!("unknown market kind {k}")),
     };
     MarketEvent { time_exchange: time(t), time_received: time(t), exchange: exchange_id_of(i), instrument: InstrumentIndex(i), kind: data }
@@ -513,7 +601,10 @@ fn cmd_replay(a: &Args) {
                 None => in_sync = true,
                 Some(m) => {
                     *classes.entry(m.class.to_string()).or_default() += 1;
-                    let cascade = m.class == "unreal" && !in_sync && s(ev, "arm") == "Stale";
+                    // ... so is an unchanged estimate on a market event that must leave it unchanged
+                    let unchanged = m.got.get("unreal").is_some() && m.got.get("unreal") == before[i].get("unreal");
+                    let cascade = m.class == "unreal" && !in_sync
+                        && (s(ev, "arm") == "Stale" || (s(ev, "arm") == "NoMark" && unchanged));
                     let rec = json!({"scn": n, "ok": false, "step": k, "class": m.class, "error": m.error, "cascade": cascade,
                                      "event": ev, "pre": before[i], "pre_price": prev_price, "got": m.got, "instrument": i,
                                      "got_price": sut.price(i).map(dstr).unwrap_or(json!("none"))});
@@ -671,7 +762,10 @@ fn cmd_random(a: &Args) {
                 next_id += 1;
                 *arms.entry("Fill".into()).or_default() += 1;
             } else {
-                let kind = if rng.random_bool(0.5) { "trade" } else { "l1" };
+                // public trades and L1 updates, and events after which the data state may have NO price:
+                // one-sided / empty top-of-book, candles, liquidations - also before any priced event
+                let kind = ["trade", "trade", "trade", "l1", "l1", "l1", "l1bid", "l1ask", "l1none", "candle", "liq"]
+                    [rng.random_range(0..11)];
                 let newer = t > rec.tfill[i];
                 // market prices include zero and negative ones ("any market event that yields a price")
                 let mp = if rng.random_range(0..4) == 0 { rng.random_range(-5..=0i64) } else { rng.random_range(1..=20i64) };
